@@ -164,13 +164,23 @@ def attempt(job, overrides):
                 names = ['o%d' % k for it in list.__iter__(getattr(obj, fld)) for k, v in real.items() if v is it]
                 script.append('list.extend(o%d.%s, [%s])' % (r, fld, ', '.join(names)))
 
-    roots = h.roots_of(list(real.values()))
+    # child lists owned by a rebuilt object are real SmartLists too: make references to them replayable
+    for r, obj in list(real.items()):
+        f = objs[r].get('fields', {})
+        for fld in ('_sections', '_props'):
+            lref = (f.get(fld) or {}).get('ref')
+            if lref is not None and hasattr(obj, fld) and lref not in real:
+                real[lref] = getattr(obj, fld)
+                script.append('o%d = o%d.%s' % (lref, r, fld))
+    lists_only = {k for k, v in real.items() if isinstance(v, SmartList)}
+
+    roots = h.roots_of([v for k, v in real.items() if k not in lists_only])
     pre_problems = []
     for root in roots:
         if isinstance(root, (odml.doc.BaseDocument, BaseSection)):
             pre_problems += h.wellformed(root)
-    for o in real.values():
-        if not isinstance(o, odml.doc.BaseDocument):
+    for k, o in real.items():
+        if not isinstance(o, odml.doc.BaseDocument) and k not in lists_only:
             pre_problems += h.attached_ok(o)
     before = {id(root): h.snap(root) for root in roots}
 
@@ -185,8 +195,10 @@ def attempt(job, overrides):
             except Exception:      # noqa
                 texts = sorted(set(strmap.values()))
                 cands[p] = texts + [t.upper() for t in texts] + ['{%s}' % t for t in texts]
-    script.append('# call: %s(%s)' % (job['fid'], ', '.join(repr(a) if not hasattr(a, '_id') else
-                                                         'o%d' % [k for k, v in real.items() if v is a][0] for a in args)))
+    def argname(a):
+        ks = [k for k, v in real.items() if v is a]
+        return 'o%d' % ks[0] if ks else repr(a)
+    script.append('# call: %s(%s)' % (job['fid'], ', '.join(argname(a) for a in args)))
     out = {'reproduced': False, 'pre_state_wellformed': not pre_problems, 'pre_problems': pre_problems[:5],
            'uuid_candidates': cands}
     if any(isinstance(a, str) and a.startswith('<') for a in args):
@@ -196,12 +208,12 @@ def attempt(job, overrides):
     kind_, res = h.call(fn, *args)
     observed = 'returned %r' % (res,) if kind_ == 'ret' else 'raised %s: %s' % (type(res).__name__, res)
     problems = []
-    roots_after = h.roots_of(list(real.values()))
+    roots_after = h.roots_of([v for k, v in real.items() if k not in lists_only])
     for root in roots_after:
         if isinstance(root, (odml.doc.BaseDocument, BaseSection)):
             problems += h.wellformed(root)
-    for o in real.values():
-        if not isinstance(o, odml.doc.BaseDocument):
+    for k, o in real.items():
+        if not isinstance(o, odml.doc.BaseDocument) and k not in lists_only:
             problems += h.attached_ok(o)
     changed = []
     if kind_ == 'exc':
